@@ -278,7 +278,11 @@ def build_world(sc):
     else:
         b0 = add_code_block(bi, leaf_b0)
     b1 = add_code_block(bi, b1_bytes)
-    add_edge(ir.cfg, b0, b1, gtirb.Edge.Type.Fallthrough)
+    if func.get("unlabelled_edge"):
+        # an edge without a label (legal GTIRB): it is not a call
+        ir.cfg.add(gtirb.Edge(b0, b1))
+    else:
+        add_edge(ir.cfg, b0, b1, gtirb.Edge.Type.Fallthrough)
     if nonleaf:
         add_edge(ir.cfg, b0, callee.referent, gtirb.Edge.Type.Call)
     _, dbi = add_data_section(m, 0x4000)
@@ -382,6 +386,8 @@ def gen_signals(r, params):
 def gen_func(r, abi, params):
     kind = r.choices(["leaf", "nonleaf", "none"], weights=[50, 35, 15])[0]
     f = {"kind": kind, "history": kind != "none" and r.random() < 0.3, "site": r.randrange(3), "pie": r.random() < 0.7}
+    if kind == "leaf" and not f["history"] and r.random() < 0.15:
+        f["unlabelled_edge"] = True
     if kind == "nonleaf" and not f["history"] and r.random() < 0.25:
         # the patch goes into a block that belongs to NO function and sits
         # behind the blocks of a non-leaf function: it may be a leaf
@@ -1302,6 +1308,22 @@ def _execute_c17(sc, params, stats, cleanups):
         if not ok:
             raise core.Violation(prop, "callable-context", dict(cw, arg=i, got=repr(c)[:200]), {"abi": abi, "cause": "wrong-context"})
 
+    # ---- the same patch object used for a second insertion: the argument
+    # callables are asked again, with THAT insertion's context
+    if want_calls:
+        import dataclasses as _dc
+
+        ctx2 = _dc.replace(ictx)
+        n_before = len(callable_log)
+        try:
+            CallPatch.get_asm(patch, ctx2)
+        except Exception as e:
+            raise core.Violation(prop, "callable-context", dict(cw, error=f"{type(e).__name__}: {e}"[:200]), {"abi": abi, "cause": "second-use-raised"})
+        again = callable_log[n_before:]
+        if sorted(i for i, _ in again) != want_calls or any(c is not ctx2 for _, c in again):
+            raise core.Violation(prop, "callable-context", dict(cw, invoked_again=sorted(i for i, _ in again)), {"abi": abi, "cause": "second-use-not-asked"})
+        stats["probe.patch_reused"] += 1
+
     sim = Sim(prop, sc, caps[0], stats)
     cpu = sim.cpu
     sp0 = sim.sp0
@@ -1650,6 +1672,8 @@ def shrink_candidates(prop, sc):
                 yield mod(lambda c, k=k: c["callee"].__setitem__(k, 0))
     if sc["func"].get("orphan_after"):
         yield mod(lambda c: c["func"].pop("orphan_after"))
+    if sc["func"].get("unlabelled_edge"):
+        yield mod(lambda c: c["func"].pop("unlabelled_edge"))
     if sc["func"]["kind"] != "nonleaf":
         yield mod(lambda c: c["func"].update({"kind": "nonleaf", "history": False}))
     if sc["sigma"].get("salt"):
